@@ -14,7 +14,9 @@ RULE = ("programs = per guard a generated family of invalid macro invocations, e
         "in the offending element (G1 destructure! of a type with impl Drop; G2 destructure! of a reference; G3 wrong "
         "field/element count; G4 `..` in struct/tuple-struct/tuple; G5 two reversing iterator methods; G6 unsupported "
         "method names; G7 arguments passed to argument-less methods; G8 parser_method! with a non-literal pattern; G9 "
-        "parser_method! match form without the `_ =>` branch) across the syntactic shapes the macro accepts (braced/tuple "
+        "parser_method! match form without the `_ =>` branch; G10 lifetime laundering through the by-value macros; G11 destructure! of a union, counted for C01 only; "
+        "G3/G4/G8/G9 also inside a calling crate that defines its own `compile_error!`; G8 includes range patterns that begin with a literal and non-literals "
+        "forwarded by a caller's macro_rules! as expr / pat / tt fragments) across the syntactic shapes the macro accepts (braced/tuple "
         "struct, tuple, array; path vs type form; with/without type annotation; generic/concrete; field counts); oracle = "
         "rustc verdict: invalid program must fail to compile, control must compile (a failing control is a harness error, "
         "exit 2); non-trivial = every distinct (guard, shape, variant) pair whose control compiled")
@@ -108,6 +110,18 @@ def g2(rng):
         inv = HEAD + declg + "pub fn f%s(mut v: %s) { let r = &mut v; konst::destructure!{%s = r} }\n" % (gen, ty, pat)
         ctl = HEAD + declg + "pub fn f%s(v: %s) { let r = v; konst::destructure!{%s = r} }\n" % (gen, ty, pat)
         out.append(("G2/%s/local-&mut" % sname, inv, ctl))
+    # patterns without any field / element applied to a reference (the macro's special-cased empty arms)
+    decle = "pub struct E {}\npub struct Et();\n"
+    eshapes = {"empty_braced": ("E {}", "E"), "empty_tuple_struct": ("Et()", "Et"), "empty_tuple": ("()", "()"), "empty_array": ("[]", "[String; 0]"),
+               "empty_braced_type": ("self::E {}", "E")}
+    for sname, (pat, ty) in eshapes.items():
+        for refk in ("&", "&mut "):
+            for annot in (False, True):
+                ann_inv = (": %s%s" % (refk, ty)) if annot else ""
+                ann_ctl = (": %s" % ty) if annot else ""
+                inv = HEAD + decle + "pub fn f(v: %s%s) { konst::destructure!{%s%s = v} }\n" % (refk, ty, pat, ann_inv)
+                ctl = HEAD + decle + "pub fn f(v: %s) { konst::destructure!{%s%s = v} }\n" % (ty, pat, ann_ctl)
+                out.append(("G2/%s/%s/%s" % (sname, refk.strip(), "annot" if annot else "noannot"), inv, ctl))
     for sname, (pat, ty, _) in shapes.items():
         for refk in ("&", "&mut "):
             for annot in (False, True):
@@ -308,6 +322,25 @@ def g8(rng):
            ("concat-const-last", "concat!(\"a\", K)"), ("concat-const-first", "concat!(K, \"b\")"), ("concat-variable", "concat!(\"a\", v)"),
            ("concat-underscore", "concat!(\"a\", _)"), ("concat-nested-const", "concat!(\"a\", concat!(K))"), ("concat-char", "concat!(\"a\", 'b')"),
            ("concat-only-const", "concat!(K)"), ("concat-path-const", "concat!(\"a\", self::K, \"b\")")]
+    # patterns that begin with a string literal but are not one: range patterns (which rustc itself rejects for strings)
+    bad += [("range-inclusive", "\"ab\"..=\"b\""), ("range-to-const", "\"ab\"..=K"), ("range-from", "\"ab\".."), ("range-to-int", "\"ab\"..=5u8"),
+            ("range-reversed", "\"z\"..=\"ab\"")]
+    # the same hidden in what a caller's macro_rules! forwards: `$e:expr` with a tail after the literal inside concat!,
+    # `$q:pat` holding a range pattern
+    for m in MATCH_METHODS + TRIM_METHODS:
+        for name, kind, bad_arg, good_arg, use in (("forwarded-expr-with-tail-in-concat", "expr", "\"b\".len()", "\"b\"", "concat!(\"a\", $e)"),
+                                                  ("forwarded-expr-with-tail", "expr", "\"b\".len()", "\"b\"", "$e"),
+                                                  ("forwarded-pat-range", "pat", "\"ab\"..=\"b\"", "\"ab\" | \"b\"", "$e"),
+                                                  ("forwarded-pat-range-to-const", "pat", "\"ab\"..=K", "\"ab\"", "$e"),
+                                                  ("forwarded-tt-const", "tt", "K", "\"ab\"", "$e")):
+            if m in MATCH_METHODS:
+                mac = "macro_rules! fw { ($p:ident, $e:%s) => { parser_method!{$p, %s; \"x\" => 0, %s => 1, _ => 99} }; }\n" % (kind, m, use)
+                body = "pub fn f(mut p: Parser<'_>) -> (u32, Parser<'_>) { let r = fw!(p, %s); (r, p) }\n"
+            else:
+                mac = "macro_rules! fw { ($p:ident, $e:%s) => { parser_method!{$p, %s; \"x\" | %s} }; }\n" % (kind, m, use)
+                body = "pub fn f(mut p: Parser<'_>) -> Parser<'_> { fw!(p, %s); p }\n"
+            pre = HEAD + "use konst::{Parser, parser_method};\n" + decl + mac
+            out.append(("G8/%s/%s" % (m, name), pre + body % bad_arg, pre + body % good_arg))
     for m in MATCH_METHODS:
         for name, b in bad:
             d = decl + ("" if name != "variable" else "")
@@ -384,7 +417,34 @@ def g10(rng):
     return out
 
 
-FAMILIES = [("G1", g1), ("G2", g2), ("G3", g3), ("G4", g4), ("G5", g5), ("G6", g6), ("G7", g7), ("G8", g8), ("G9", g9), ("G10", g10)]
+def g11(rng):
+    """destructure! applied to a union: reading a union field needs `unsafe` (built-in `let U {a} = u;` is E0133), so the
+    safe macro must reject every form; the control is the same program with `struct` instead of `union`."""
+    out = []
+    decls = {
+        "concrete": ("pub %s V { pub a: bool }\n", "V", ["V {a}", "self::V {a}", "V::<> {a}", "self::V::<> {a}", "V<> {a}"]),
+        "generic": ("pub %s V<T: Copy> { pub a: T }\n", "V<bool>", ["V {a}", "V::<bool> {a}", "V<bool> {a}", "self::V::<bool> {a}", "V::<_> {a}"]),
+        "two-fields": ("pub %s V { pub a: bool, pub b: u8 }\n", "V", ["V {a}", "V::<> {a}", "V {a, b}", "V::<> {a, b}", "V::<> {b, a}"]),
+    }
+    for dname, (decl, ty, pats) in decls.items():
+        for pat in pats:
+            for annot in (False, True):
+                ann = (": " + ty) if annot else ""
+                prog = "pub fn f(v: %s) -> bool { konst::destructure!{%s%s = v} a }\n" % (ty, pat, ann)
+                inv = HEAD + decl % "union" + prog
+                ctl = HEAD + decl % "struct" + prog
+                if dname == "two-fields" and ("b" not in pat.split("{")[1]):
+                    # the struct control needs both fields listed
+                    ctl = HEAD + (decl % "struct") + "pub fn f(v: %s) -> bool { konst::destructure!{%s%s = v} a }\n" % (ty, pat.replace("{a}", "{a, b}"), ann)
+                out.append(("G11/%s/%s/%s" % (dname, pat.replace(" ", ""), "annot" if annot else "noannot"), inv, ctl))
+    return out
+
+
+FAMILIES = [("G1", g1), ("G2", g2), ("G3", g3), ("G4", g4), ("G5", g5), ("G6", g6), ("G7", g7), ("G8", g8), ("G9", g9), ("G10", g10), ("G11", g11)]
+
+# a calling crate that defines its own `compile_error!`: guards written as a bare `compile_error!{..}` in the macro would
+# expand to the caller's macro (macro_rules! hygiene does not cover macro names)
+CALLER_COMPILE_ERROR = "#[allow(unused_macros)] macro_rules! compile_error { ($($t:tt)*) => { }; }\n"
 
 
 def all_cases(seed, tier):
@@ -393,6 +453,11 @@ def all_cases(seed, tier):
     for fam, fn in FAMILIES:
         got = fn(rng)
         cases.extend(got)
+        if fam in ("G3", "G4", "G8", "G9"):
+            for name, inv, ctl in got:
+                if inv is None or (fam in ("G3", "G8") and rng.random() < 0.6):
+                    continue
+                cases.append((name + "/caller-defines-compile_error", inv.replace(HEAD, HEAD + CALLER_COMPILE_ERROR, 1), ctl.replace(HEAD, HEAD + CALLER_COMPILE_ERROR, 1)))
     # quick tier: a seeded sample of the larger families, thorough: everything
     if tier == "quick":
         keep = []
@@ -460,6 +525,21 @@ def run(prop, tier, seed, out, timeout, **kw):
             else:
                 rest.append(v)
         violations = rest
+    known_hits2 = 0
+    if "empty-pattern-on-reference-accepted" in known_sigs:
+        rest = []
+        for v in violations:
+            if v[0].startswith("G2/empty_"):
+                known_hits2 += 1
+            else:
+                rest.append(v)
+        violations = rest
+    if prop == "C17":
+        # unions are not among the guards C17 lists; accepting one is a soundness matter (C01)
+        kept = [v for v in violations if not v[0].startswith("G11/")]
+        if len(kept) != len(violations):
+            labels["union_acceptances_left_to_C01"] = len(violations) - len(kept)
+        violations = kept
     if prop != "C17":
         # run on behalf of another property (C01: "no undefined behaviour"): only acceptances that make safe code unsound
         # count.  Destructuring a struct with zero fields moves nothing out, so accepting it (C17's listed finding) is
@@ -469,18 +549,22 @@ def run(prop, tier, seed, out, timeout, **kw):
         for v in violations:
             if v[0].startswith(("G1/braced/fields=0/", "G1/tuple_struct/fields=0/")):
                 labels["sound_acceptance_not_counted"] = labels.get("sound_acceptance_not_counted", 0) + 1
-            elif v[0].startswith(("G1/", "G2/", "G10/")):
+            elif v[0].startswith("G2/empty_"):
+                labels["sound_acceptance_not_counted"] = labels.get("sound_acceptance_not_counted", 0) + 1
+            elif v[0].startswith(("G1/", "G2/", "G10/", "G11/")):
                 kept.append(v)
             else:
                 labels["not_a_soundness_matter"] = labels.get("not_a_soundness_matter", 0) + 1
         violations = kept
-    labels["known_finding_hits"] = known_hits
+    labels["known_finding_hits"] = known_hits + known_hits2
     text = []
     if broken_controls:
         for name, src, err in broken_controls[:4]:
             text.append("[gen_reject] control program does not compile (harness error, not a violation): %s\n%s\n%s" % (name, src, err[-1500:]))
         return 2, "\n".join(text) + "\n"
     rc = 0
+    if violations:
+        text.append("  accepted invalid programs (%d): %s" % (len(violations), ", ".join(v[0] for v in violations[:200])))
     for name, inv, ctl in violations[:8]:
         path = driver.save_replay(prop, ENGINE, "accepts", {"property": prop, "engine": ENGINE, "case": {"family": name},
                                                             "invalid_program_that_compiled": inv, "control_program": ctl})
@@ -488,7 +572,7 @@ def run(prop, tier, seed, out, timeout, **kw):
         text.append("VIOLATION property=%s replay=%s" % (prop, path))
         rc = 1
     for sig, desc in known:
-        text.append("KNOWN-FINDING: property=%s %s (signature=%s, hits this run=%d)" % (prop, desc, sig, known_hits if sig == "zero-field-drop-struct-accepted" else 0))
+        text.append("KNOWN-FINDING: property=%s %s (signature=%s, hits this run=%d)" % (prop, desc, sig, {"zero-field-drop-struct-accepted": known_hits, "empty-pattern-on-reference-accepted": known_hits2}.get(sig, 0)))
     wall = time.time() - t0
     text.append("[%s %s] programs=%d pairs=%d violations=%d wall=%.1fs" % (prop, ENGINE, len(sources), nontriv, len(violations), wall))
     driver.write_evidence(out, prop, ENGINE, tier, seed, wall, len(sources), nontriv, RULE, samples, len(violations),
